@@ -80,7 +80,9 @@ static void r_memCmp(int n, int v) { prepCmpO(n, v); MEASURE(SAFE(memCmp)(X, Y, 
 static void r_memCmpRev(int n, int v) { prepCmpO(n, v); MEASURE(SAFE(memCmpRev)(X, Y, (size_t)n)); }
 static void r_wwEq(int n, int v) { prepCmpW(n, v); MEASURE(SAFE(wwEq)(A, B, (size_t)n)); }
 static void r_wwCmp(int n, int v) { prepCmpW(n, v); MEASURE(SAFE(wwCmp)(A, B, (size_t)n)); }
-static void r_wwCmp2(int n, int v) { prepCmpW(n, v); B[n] = 0; MEASURE(SAFE(wwCmp2)(A, (size_t)n, B, (size_t)n + 1)); }
+/* unequal lengths: the extra high words of the longer operand are secret data too (zero or not) */
+static void r_wwCmp2(int n, int v) { prepCmpW(n, v); B[n] = (v % 2) ? 0 : (word)0x55 << (v % 31); B[n + 1] = (v % 3) ? 0 : 1; MEASURE(SAFE(wwCmp2)(A, (size_t)n, B, (size_t)n + 2)); }
+static void r_wwCmp2b(int n, int v) { prepCmpW(n, v); B[n] = (v % 2) ? 0 : (word)0x55 << (v % 31); B[n + 1] = (v % 3) ? 0 : 1; MEASURE(SAFE(wwCmp2)(B, (size_t)n + 2, A, (size_t)n)); }
 static char HX[600];
 static void r_hexEq(int n, int v) { prepCmpO(n, v); hexFrom(HX, Y, (size_t)n); MEASURE(SAFE(hexEq)(X, HX)); }
 static void r_hexEqRev(int n, int v) { prepCmpO(n, v); hexFrom(HX, Y, (size_t)n); MEASURE(SAFE(hexEqRev)(X, HX)); }
@@ -263,7 +265,7 @@ static const entry_t E[] = {
 	{"memEq", "o", nvCmp, r_memEq, LO}, {"memCmp", "o", nvCmp, r_memCmp, LO}, {"memCmpRev", "o", nvCmp, r_memCmpRev, LO},
 	{"memIsZero", "o", nvZero, r_memIsZero, LO}, {"memIsRep", "o", nvZero, r_memIsRep, LO},
 	{"hexEq", "o", nvCmp, r_hexEq, LO}, {"hexEqRev", "o", nvCmp, r_hexEqRev, LO},
-	{"wwEq", "w", nvCmp, r_wwEq, LW}, {"wwCmp", "w", nvCmp, r_wwCmp, LW}, {"wwCmp2", "w", nvCmp, r_wwCmp2, LW},
+	{"wwEq", "w", nvCmp, r_wwEq, LW}, {"wwCmp", "w", nvCmp, r_wwCmp, LW}, {"wwCmp2", "w", nvCmp, r_wwCmp2, LW}, {"wwCmp2:long-first", "w", nvCmp, r_wwCmp2b, LW},
 	{"wwCmpW", "w", nvZero, r_wwCmpW, LW}, {"wwIsZero", "w", nvZero, r_wwIsZero, LW}, {"wwIsW", "w", nvZero, r_wwIsW, LW},
 	{"wwIsRepW", "w", nvZero, r_wwIsRepW, LW},
 	{"u16CLZ", "-", nvBits, r_u16CLZ, L1}, {"u16CTZ", "-", nvBits, r_u16CTZ, L1}, {"u32CLZ", "-", nvBits, r_u32CLZ, L1},
